@@ -554,6 +554,67 @@ struct Rooted {
     maybe: Option<u64>,
 }
 
+/// payload of the panics this harness raises on purpose (silenced in the panic hook)
+struct IntentionalPanic;
+
+/// a metric value whose distribution iterator panics after yielding `good` observations
+struct PanicsMidway {
+    good: u64,
+}
+impl Value for PanicsMidway {
+    fn write(&self, writer: impl ValueWriter) {
+        let good = self.good;
+        writer.metric(
+            (0..=good).map(move |i| if i == good { std::panic::panic_any(IntentionalPanic) } else { metrique_writer::Observation::Unsigned(1000 * (i + 1)) }),
+            metrique_writer::Unit::Count,
+            [],
+            MetricFlags::empty(),
+        )
+    }
+}
+struct FaultyEntry {
+    good: u64,
+}
+impl Entry for FaultyEntry {
+    fn write<'a>(&'a self, writer: &mut impl metrique_writer::EntryWriter<'a>) {
+        writer.value("Before", &7u64);
+        writer.value("Sizes", &PanicsMidway { good: self.good });
+    }
+}
+
+/// A wrapped entry whose write unwinds half-way (user code inside a value panics, the panic is
+/// caught): whatever the wrapper was in the middle of must not leak into the NEXT entry that goes
+/// through the same kind of wrapper on this thread.
+fn after_unwound_write_case(rng: &mut Rng, rep: &Report) -> bool {
+    rep.eval();
+    let good = 1 + rng.below(6);
+    let faulty: Vec<Box<dyn Fn() + std::panic::UnwindSafe>> = vec![
+        Box::new(move || drop(record(&FaultyEntry { good }.boxed()))),
+        Box::new(move || drop(record(&BoxEntry::new(FaultyEntry { good }.boxed())))),
+        Box::new(move || drop(record(&Some(FaultyEntry { good }.boxed())))),
+    ];
+    let which = rng.usize_below(faulty.len());
+    let r = std::panic::catch_unwind(std::panic::AssertUnwindSafe(|| faulty[which]()));
+    if r.is_ok() {
+        rep.inconclusive("the scripted panic inside a value did not happen (harness error)");
+        return false;
+    }
+    let e = gen_program(rng, false);
+    let plain = record(&e);
+    for (name, got) in [("boxed()", record(&e.clone().boxed())), ("BoxEntry::new(boxed())", record(&BoxEntry::new(e.clone().boxed())))] {
+        if got != plain {
+            rep.violation(
+                "wrapped-entry-log-differs",
+                json!({"what": "an earlier boxed entry's write unwound half-way on this thread (a value panicked, caught); the next entry through the same wrapper is no longer transparent",
+                       "observations_yielded_before_the_panic": good, "wrapper": name, "entry": e.json(), "diff": diff(&got, &plain)}),
+            );
+            return false;
+        }
+    }
+    rep.count("after_unwound_write_cases", 1);
+    true
+}
+
 fn root_case(rep: &Report) -> bool {
     use metrique::{CloseValue, InflectableEntry, RootEntry};
     rep.eval();
@@ -582,6 +643,12 @@ fn main() {
          WithDimensions / ForceFlag / Option / Box / Arc / Cow / & nested to depth 4; the stream/format adapters merge_globals, merge_global_dimensions, ForceFlag<stream>, tee; RootEntry. Oracle: the ordered call log and \
          the sample group seen by a recording writer equal the documented function of the plain entry's. distinct = distinct (layer kinds, entry size) combinations",
     );
+    let default_hook = std::panic::take_hook();
+    std::panic::set_hook(Box::new(move |info| {
+        if !info.payload().is::<IntentionalPanic>() {
+            default_hook(info);
+        }
+    }));
     root_case(&rep);
     let budget = Duration::from_secs(args.get_u64("secs", args.by_tier(8, 100)));
     let start = Instant::now();
@@ -591,7 +658,9 @@ fn main() {
             s.spawn(move || {
                 let mut rng = Rng::derive(args.seed, lane);
                 while start.elapsed() < budget && rep.violation_count() == 0 {
-                    let ok = match rng.below(4) {
+                    let kinds = if rng.below(16) == 0 { 5 } else { 4 };
+                    let ok = match rng.below(kinds) {
+                        4 => after_unwound_write_case(&mut rng, rep),
                         0 => value_case(&mut rng, rep),
                         1 => stream_case(&mut rng, rep),
                         _ => composition_case(&mut rng, rep),
